@@ -45,7 +45,7 @@ BUILT['C12'] = {
 }
 BUILT['C13'] = {
     'technique': 'reference monitor by plain concatenation; one worker child per environment batch; CLI sample',
-    'level': 'Runtime monitoring: templates of literal segments and references (document paths, $env:NAME, repeat variable), whole-value and key $env, evaluated by the real library in a child process spawned with the case\'s environment; results must equal the harness\'s plain concatenation, $env results must be strings with exactly the variable\'s bytes, missing references must fail. Holds for the executions produced only.',
+    'level': 'Runtime monitoring: templates of literal segments and references (document paths, $env:NAME, repeat variable), whole-value and key $env, evaluated by the real library in a child process spawned with the case\'s environment; results must equal the harness\'s plain concatenation, $env results must be strings with exactly the variable\'s bytes, missing references must fail; the environment is also changed between evaluations inside one process (the value at evaluation time counts). Holds for the executions produced only.',
     'note': 'Trusted: generators and expected-string computation. Environment values containing $ are excluded from the generated workload: three recorded known findings (known_findings.json) are re-run on every invocation instead.',
 }
 BUILT['C14'] = {
@@ -79,13 +79,13 @@ BUILT['C04'] = {
     'note': 'Trusted: own serializers (validated against independent decoders), stream/merge model, worker value encoding (int vs float vs other Go types).',
 }
 BUILT['C08'] = {
-    'technique': 'crash/termination monitors at the process boundary and in-process, termination decided by the verifStep hook\'s logical step budget; hostile structure-aware, byte-mutated and cycle-zoo workloads; /dev/full fault injection',
-    'level': 'Runtime monitoring: hostile generated documents (every directive at every position with every argument type, mutated; 1-3 layers), byte-mutated JSON/TOML and token-mutated YAML seeds (generated, tests/*, FuzzParser corpus), a zoo of reference/interpolation cycles and every $parent graph over <= 3 files are run through the library (worker child, panics recovered, deaths and step-budget overruns observed) and the bkl/bkld/bkli/bklr binaries; status must be 0 with complete output equal to the library\'s, or 1 with empty stdout and a diagnostic; never a panic, fatal error, signal or more than 2,000,000 hook steps; cycles must be reported as errors; a full output device must be reported. Holds for the executions produced only.',
+    'technique': 'crash/termination monitors at the process boundary and in-process, termination decided by the verifStep hook\'s logical step budget; hostile structure-aware, byte-mutated and cycle-zoo workloads; fault injection (/dev/full on output, strace-injected EIO on reads of layer files)',
+    'level': 'Runtime monitoring: hostile generated documents (every directive at every position with every argument type, mutated; 1-3 layers), byte-mutated JSON/TOML and token-mutated YAML seeds (generated, tests/*, FuzzParser corpus), a zoo of reference/interpolation cycles and every $parent graph over <= 3 files are run through the library (worker child, panics recovered, deaths and step-budget overruns observed) and the bkl/bkld/bkli/bklr binaries; status must be 0 with complete output equal to the library\'s, or 1 with empty stdout and a diagnostic; never a panic, fatal error, signal or more than 2,000,000 hook steps; cycles must be reported as errors; a full output device and a failing read of a layer file (injected with strace into bkl, bkld, bkli, bklr and the bklb wrapper) must be reported; the wrapper must fail whenever the evaluation fails. Holds for the executions produced only.',
     'note': 'Trusted: verifStep hook placement (process1, process2, process2String, merge, get, loadFileAndParents), generator bounds ($repeat <= 6) that keep legitimate work far below the budget. TOML output of non-map documents and the empty file left by a failed -o are not judged.',
 }
 BUILT['C09'] = {
     'technique': 'history monitor over (input, run kind, status, sha256(output)) events: repeated in-process, fresh processes, and concurrent goroutines under the Go race detector (-race build of the worker)',
-    'level': 'Runtime monitoring: inputs pooled from the other properties\' generators plus determinism-specific shapes are evaluated N times in one process, from G goroutines at once (half of them on other inputs) in a -race build for R rounds, and in fresh processes from files with shuffled key order; all events of one input must be identical and the race detector must report nothing. Holds for the executions and interleavings produced only.',
+    'level': 'Runtime monitoring: inputs pooled from the other properties\' generators plus determinism-specific shapes are evaluated N times in one process, from G goroutines at once (half of them on other inputs) in a -race build for R rounds, and in fresh processes from files with shuffled key order; wildcard parents over mixed formats, a lower layer that changes its extension between two evaluations in one process, and bkld/bkli/bklr repeated on the same files are part of the workload; all events of one input must be identical and the race detector must report nothing. Holds for the executions and interleavings produced only.',
     'note': 'Trusted: Go race detector (reports only races on executed paths), worker concurrency driver (one Parser per goroutine). Error messages are not compared.',
 }
 BUILT['C18'] = {
